@@ -118,6 +118,14 @@ Theorem C09_gate_is_the_sources : forall jobs s,
 Proof. exact gate_tie. Qed.
 Print Assumptions C09_gate_is_the_sources.
 
+(* ... and so are the main loop's condition and the test that skips the wait (Executor.run_plan), at the
+   points where the flattened model evaluates them: with the launch gate closed *)
+Theorem C09_main_loop_is_the_sources : forall jobs s, gate_open jobs s = false ->
+  gen_loop_goes_on (has_ops s) (inflight s) = negb (Nat.eqb (inflight s) 0) /\
+  gen_skip_wait (inflight s) = Nat.eqb (inflight s) 0.
+Proof. exact loop_tie. Qed.
+Print Assumptions C09_main_loop_is_the_sources.
+
 Example C09_nonvacuous :
   run_plan ex_plan 2 false ex_orc 7 0 =
   Some [EStart 0 (Some 0); EStart 1 (Some 1); EFinish 1 0; EFinish 0 0; EStart 2 None; EFinish 2 0; EKill []; EDone].
